@@ -173,20 +173,21 @@ func (x *Exec) ObsTag(tag string) []Obs {
 
 // Sched is the per-execution scheduler state.
 type Sched struct {
-	threads   []*Thread
-	cur       *Thread
-	drv       chan struct{}
-	now       int64
-	timers    []*timer
-	prefix    []int
-	ex        *Exec
-	aborting  bool
-	events    []*Event
-	nchan     int
-	mainDone  bool
-	driverCtx bool
-	sigctx    []*vctx
-	exited    bool
+	threads    []*Thread
+	cur        *Thread
+	drv        chan struct{}
+	now        int64
+	timers     []*timer
+	prefix     []int
+	ex         *Exec
+	aborting   bool
+	events     []*Event
+	nchan      int
+	mainDone   bool
+	driverCtx  bool
+	execThread *Thread // thread whose operation the driver is executing (nil outside exec)
+	sigctx     []*vctx
+	exited     bool
 
 	// knobs a harness may set in cfg
 	Horizon    int           // max steps per execution (livelock guard)
@@ -443,6 +444,11 @@ func (s *Sched) complete(p *Thread, c *core, wasSend bool, v any, ok bool) {
 
 func (s *Sched) exec(t *Thread) {
 	o := t.pending
+	// the operation belongs to t: CurThread and Observe inside a Visible/Block body must name t,
+	// not the thread that happened to run before
+	s.cur = t
+	s.execThread = t
+	defer func() { s.execThread = nil }()
 	if s.Record {
 		s.ex.Trace = append(s.ex.Trace, fmt.Sprintf("%s:%s", t.name, o.describe()))
 	}
@@ -743,6 +749,8 @@ func Observe(tag string, format string, args ...any) {
 	name := "env"
 	if S.cur != nil && !S.driverCtx {
 		name = S.cur.name
+	} else if S.execThread != nil {
+		name = S.execThread.name
 	}
 	d := format
 	if len(args) > 0 {
